@@ -34,21 +34,25 @@ def mps (args : List String) : Option String := do
     some (showList showF (mpsQueries (← parseF hf) (← parseList parseF g) (← ns.toNat?) (← parseB o)))
   | _ => none
 
-/-- `ia.steps backend half n full masked slmEnd dark nsteps g` — the matrix used in every step
+/-- `ia.steps backend half n full masked slmEnd dark nsteps g perm` (`perm` = `N` or the qubit permutation,
+emu-mps only) — the matrix used in every step
 (`backend` = sv|mps; `dark` = `N` (no state-preparation error) or the 0/1 bad-atom mask) →
 row-major matrices separated by `;` (emu-mps: of the size of the well prepared atoms). -/
 def steps (args : List String) : Option String := do
   match args with
-  | [be, hf, n, fu, ma, se, dk, ns, g] =>
+  | [be, hf, n, fu, ma, se, dk, ns, g, pm] =>
     let n ← n.toNat?; let hf ← parseF hf; let se ← parseF se; let ns ← ns.toNat?
     let full := toMat n (← parseList parseF fu); let masked := toMat n (← parseList parseF ma)
     let g ← parseList parseF g
     let bad ← (if dk = "N" then some none else (parseList parseB dk).map some)
+    let perm ← (if pm = "N" then some none else (parseList String.toNat? pm).map some)
     let mats ← (List.range ns).mapM (fun k =>
       if be = "sv" then
         (svStepMat full masked se (bad.map (fun b i => b.getD i false)) g k).map (fun m => ofMat n m)
       else
-        let keep := bad.map (fun b => (List.range n).filter (fun i => !(b.getD i false)))
+        let keep : Option (List Nat) :=
+          if bad.isNone && perm.isNone then none
+          else some (siteAtoms n perm (fun i => (bad.getD []).getD i false))
         let sz := match keep with
           | some kp => kp.length
           | none => n
